@@ -71,24 +71,29 @@ Proof.
   rewrite (patch_bb_in _ _ _ _ H2), Nat.eqb_refl. reflexivity.
 Qed.
 
+(* computed from the generated guard: fails to compile when compile_cfg calls insert_return_vars
+   unconditionally *)
+Lemma guarded_insert_eq : forall c, guarded_insert c = guarded_insert_exit_row c.
+Proof. reflexivity. Qed.
+
 Lemma guarded_insert_idem_main : forall c c', (c_exit c < length (c_bbs c))%nat ->
   guarded_insert c = Some c' -> guarded_insert c' = Some c'.
 Proof.
-  intros c c' Hlt H. unfold guarded_insert in H.
+  intros c c' Hlt H. rewrite guarded_insert_eq in *. unfold guarded_insert_exit_row in H.
   destruct (no_return_vars c) eqn:G.
   - destruct (return_vars c) as [|v vs] eqn:Er.
     + (* nothing to insert: the patch is the identity *)
       assert (c' = c).
       { unfold insert_return_vars in H. destruct (patch_bbs c 0 (c_bbs c)) as [bs|] eqn:E; [|discriminate].
         apply patch_bbs_noret in E; auto. subst. inversion H. destruct c; reflexivity. }
-      subst. unfold guarded_insert. rewrite G. exact H.
+      subst. unfold guarded_insert_exit_row. rewrite G. exact H.
     + destruct (insert_exit_row _ _ Hlt H) as [_ [_ Hin]].
-      unfold guarded_insert.
+      unfold guarded_insert_exit_row.
       assert (no_return_vars c' = false) as ->; auto.
       unfold no_return_vars. rewrite Hin, Er.
       unfold return_vars in Er. destruct (c_ret c) as [|t ts]; simpl in Er; [discriminate|].
       inversion Er; subst. cbn [app forallb v_name]. rewrite return_var_name_is_return. reflexivity.
-  - inversion H; subst. unfold guarded_insert. rewrite G. reflexivity.
+  - inversion H; subst. unfold guarded_insert_exit_row. rewrite G. reflexivity.
 Qed.
 
 Lemma exit_row_functype_main : forall c c' inputs, (c_exit c < length (c_bbs c))%nat ->
